@@ -53,10 +53,10 @@ func (e *enumRng) Intn(n int) int   { e.intnCalls++; return e.idx % n }
 
 var (
 	// quick grids; setThoroughGrids() refines them
-	availGrid  = []string{"0", "0.5", "0.8", "0.85", "0.99", "1"}     // ascending = improving
+	availGrid  = []string{"0", "0.5", "0.8", "0.85", "0.99", "1"}    // ascending = improving
 	latGrid    = []string{"0", "0.01", "0.1", "1", "2", "30", "100"} // ascending = worsening
 	syncGrid   = []string{"0", "0.5", "1", "100", "1200", "5000"}    // ascending = worsening
-	stakeGrid  = []int64{0, 1, 10, 100}                               // ascending = improving
+	stakeGrid  = []int64{0, 1, 10, 100}                              // ascending = improving
 	otherStake = []int64{0, 10}
 	addrs      = []string{"lava@p0", "lava@p1", "lava@p2", "lava@p3"}
 )
@@ -166,9 +166,6 @@ type state struct {
 }
 
 func (st *state) expired() bool {
-	if atomic.LoadInt32(&st.timedOut) == 1 {
-		return true
-	}
 	if time.Now().After(st.deadline) {
 		atomic.StoreInt32(&st.timedOut, 1)
 		return true
@@ -195,6 +192,18 @@ func (st *state) noteVector(level string, w []float64) {
 	st.mu.Lock()
 	st.vectors[sb.String()] = struct{}{}
 	st.mu.Unlock()
+}
+
+// spread: all weights pairwise different (used to pick illustrative samples only)
+func spread(w []float64) bool {
+	for i := range w {
+		for j := i + 1; j < len(w); j++ {
+			if w[i] == w[j] {
+				return false
+			}
+		}
+	}
+	return true
 }
 
 func (st *state) viol(key, what string, replay interface{}) {
@@ -459,7 +468,7 @@ func describe(a assignment, mask int) map[string]interface{} {
 	return map[string]interface{}{"candidates": c, "ignored": ign}
 }
 
-func (st *state) partB(cfgs []selCfg, as []assignment, K int) {
+func (st *state) partB(cfgs []selCfg, as []assignment, kOf func(n int) int) {
 	type item struct {
 		c selCfg
 		a assignment
@@ -478,6 +487,7 @@ func (st *state) partB(cfgs []selCfg, as []assignment, K int) {
 			return
 		}
 		it := items[i]
+		K := kOf(it.a.n)
 		ws := it.c.build()
 		rng := &enumRng{}
 		ws.VerifSetRandomizer(rng)
@@ -570,7 +580,7 @@ func (st *state) partB(cfgs []selCfg, as []assignment, K int) {
 			atomic.AddInt64(&st.evals, int64(K))
 			if ok {
 				st.checkCounts("selector", K, sa, w, counts, replay)
-				if len(scores) >= 3 && atomic.AddInt32(&sampled, 1) <= 2 {
+				if len(scores) >= 3 && spread(w) && atomic.AddInt32(&sampled, 1) <= 2 {
 					d := describe(it.a, mask)
 					d["config"], d["weights"], d["counts"], d["K"], d["level"] = it.c.String(), w, counts, K, "selector"
 					st.run.Sample(d)
@@ -632,6 +642,27 @@ func (st *state) partC(cfgs []optCfg, c1 func(optCfg) bool, as []assignment, K i
 		o := c.build(rng)
 		min := o.GetWeightedSelectorConfig().MinSelectionChance
 		ctx := context.Background()
+
+		// C2: weight range + monotonicity over the full QoS/stake grid, focus provider p0, background provider p1
+		o.ResetState()
+		o.VerifWait()
+		o.VerifSetProviderData(addrs[1], mkData(0.9, 1, 100))
+		o.VerifWait()
+		two := addrs[:2]
+		rng.f = 0
+		st.gridCheck("optimizer", min, true, c.String(), func(ai, li, si, ki, oi int) (float64, bool) {
+			o.VerifSetProviderData(addrs[0], mkData(f64(availGrid[ai]), f64(latGrid[li]), f64(syncGrid[si])))
+			o.VerifWait()
+			o.UpdateWeights(map[string]int64{addrs[0]: stakeGrid[ki], addrs[1]: otherStake[oi]}, 1)
+			_, stats := o.ChooseProviderWithStats(ctx, two, nil, 10, -2)
+			sa, w := statsWeights(stats)
+			for j := range sa {
+				if sa[j] == addrs[0] {
+					return w[j], true
+				}
+			}
+			return 0, false
+		})
 
 		// C1: membership / non-empty / counting
 		for _, a := range as {
@@ -712,7 +743,7 @@ func (st *state) partC(cfgs []optCfg, c1 func(optCfg) bool, as []assignment, K i
 				if ok && !uniform {
 					atomic.AddInt64(&st.evals, int64(K))
 					st.checkCounts("optimizer", K, sa, w, counts, replay)
-					if len(w) >= 3 && atomic.AddInt32(&sampled, 1) <= 2 {
+					if len(w) >= 3 && spread(w) && atomic.AddInt32(&sampled, 1) <= 2 {
 						d := describe(a, mask)
 						d["config"], d["weights"], d["counts"], d["K"], d["level"] = c.String(), w, counts, K, "optimizer"
 						st.run.Sample(d)
@@ -720,27 +751,6 @@ func (st *state) partC(cfgs []optCfg, c1 func(optCfg) bool, as []assignment, K i
 				}
 			}
 		}
-
-		// C2: weight range + monotonicity over the full QoS/stake grid, focus provider p0, background provider p1
-		o.ResetState()
-		o.VerifWait()
-		o.VerifSetProviderData(addrs[1], mkData(0.9, 1, 100))
-		o.VerifWait()
-		two := addrs[:2]
-		rng.f = 0
-		st.gridCheck("optimizer", min, true, c.String(), func(ai, li, si, ki, oi int) (float64, bool) {
-			o.VerifSetProviderData(addrs[0], mkData(f64(availGrid[ai]), f64(latGrid[li]), f64(syncGrid[si])))
-			o.VerifWait()
-			o.UpdateWeights(map[string]int64{addrs[0]: stakeGrid[ki], addrs[1]: otherStake[oi]}, 1)
-			_, stats := o.ChooseProviderWithStats(ctx, two, nil, 10, -2)
-			sa, w := statsWeights(stats)
-			for j := range sa {
-				if sa[j] == addrs[0] {
-					return w[j], true
-				}
-			}
-			return 0, false
-		})
 	})
 }
 
@@ -853,10 +863,12 @@ func init() {
 		utils.SetGlobalLoggingLevel("fatal")
 		thorough := ev.Tier() == "thorough"
 		st := &state{run: run, vectors: map[string]struct{}{}}
-		st.deadline = time.Now().Add(55 * time.Second)
+		budget := 55 * time.Second
 		if thorough {
-			st.deadline = time.Now().Add(14 * time.Minute)
+			budget = 14 * time.Minute
 		}
+		begin := time.Now()
+		upTo := func(frac float64) { st.deadline = begin.Add(time.Duration(frac * float64(budget))) }
 
 		// A: selector weights (range + monotone) -- configurations
 		var cfgsA, cfgsB []selCfg
@@ -878,8 +890,8 @@ func init() {
 		KB, KC, lenD := 10000, 250, 2
 		var asB, asC []assignment
 		if thorough {
-			KC, lenD = 1000, 4
-			for _, s := range allStrategies {
+			KC, lenD = 500, 4
+			for _, s := range fourStrategies {
 				for _, ad := range []int{0, 1} {
 					for _, m := range []float64{0, 0.01} {
 						cfgsB = append(cfgsB, selCfg{s, m, weightSets[0], ad})
@@ -894,6 +906,15 @@ func init() {
 			}
 			asB = append(assignments(1, 3, allProfiles), assignments(4, 4, fourProfiles)...)
 			asC = assignments(1, 3, fourProfiles)
+		}
+		kOfB := func(n int) int {
+			if n == 4 {
+				if thorough {
+					return KB / 5
+				}
+				return KB / 10
+			}
+			return KB
 		}
 		// C/D: optimizer
 		var cfgsC []optCfg
@@ -919,12 +940,16 @@ func init() {
 		}
 
 		tS := time.Now()
+		upTo(0.15)
 		st.partA(cfgsA)
 		tA := time.Now()
-		st.partB(cfgsB, asB, KB)
+		upTo(0.55)
+		st.partB(cfgsB, asB, kOfB)
 		tB := time.Now()
+		upTo(0.65)
 		st.partD(cfgsC, lenD)
 		tD := time.Now()
+		upTo(1)
 		st.partC(cfgsC, c1, asC, KC)
 		tC := time.Now()
 		run.Set("part_wall_s", map[string]float64{"A": tA.Sub(tS).Seconds(), "B": tB.Sub(tA).Seconds(), "D": tD.Sub(tB).Seconds(), "C": tC.Sub(tD).Seconds()})
@@ -948,7 +973,7 @@ func init() {
 		exh := atomic.LoadInt32(&st.timedOut) == 0
 		run.Set("exhaustive", exh)
 		run.Set("bound", fmt.Sprintf("A: %d selector configs (7 strategies x adaptive %v x minSelectionChance %v x %d weight sets) x grid availability %v x latency %v x sync %v x stake %v x other stake %v; "+
-			"B: %d selector configs x %d candidate lists (1..4 providers over the profiles best/good/mid/poor/zero/nodata; quick: 4-provider lists over best/mid/zero/nodata only) x all ignored subsets, K=%d; "+
+			"B: %d selector configs x %d candidate lists (1..4 providers over the profiles best/good/mid/poor/zero/nodata; quick: 4-provider lists over best/mid/zero/nodata only) x all ignored subsets, K=%d (4-provider lists: K/10 quick, K/5 thorough); "+
 			"C: %d optimizer configs (strategies x default/ConfigureWeightedSelector) x %d candidate lists (1..3 providers) x all ignored subsets, K=%d, plus the grid of A for one focus provider on all %d optimizer configs; "+
 			"D: all write histories of length <= %d over %d public write ops x 3 second-provider histories x 8 ignored subsets x 5 random answers on %d optimizer configs",
 			len(cfgsA), adA, minA, len(wsA), availGrid, latGrid, syncGrid, stakeGrid, otherStake, len(cfgsB), len(asB), KB, nC1, len(asC), KC, len(cfgsC), lenD, len(wops), len(cfgsC)))
